@@ -146,6 +146,16 @@ def gather(run, designs, again=0):
                     kids = [c for c in d['top'].children.values() if not g.isInlinable(c)]
                     t3 = g.getVerilogForHierarchy(kids[0]) if kids else None
                 items.append(({'name': d['name'] + ' (second call on the same generator)', 'kind': d['kind']}, t2, iface))
+                # the clock driver of the system is replaced by one with another name on the same clock wire, then a fresh
+                # generator is asked: every module and instance must follow the new name
+                try:
+                    with quiet():
+                        old_drv = d['hw'].clockDriver
+                        d['hw'].clockDriver = py4hw.ClockDriver('CLOCK_50', wire=old_drv.wire)
+                        t4 = py4hw.VerilogGenerator(d['top']).getVerilogForHierarchy()
+                    items.append(({'name': d['name'] + ' (after the system clock driver was renamed)', 'kind': d['kind']}, t4, []))
+                except Exception:
+                    run.cov['generation_refused'] = run.cov.get('generation_refused', 0) + 1
                 if t3 is not None:
                     items.append(({'name': d['name'] + ' (sub-block requested from the same generator)', 'kind': d['kind']}, t3, []))
             except Exception:
